@@ -41,6 +41,7 @@ var reviewedTables = map[string]struct {
 var identRe = regexp.MustCompile(`[A-Za-z_][A-Za-z0-9_]*`)
 var ordinalRe = regexp.MustCompile(`#\d+$`)
 var publishRe = regexp.MustCompile(`^publish .* \[entry\]`)
+var callOnRe = regexp.MustCompile(`^call (\S+) on .* \[entry\]`)
 
 // canonConstruct blanks the identifiers a rename can change.
 func canonConstruct(c string) string {
@@ -48,6 +49,8 @@ func canonConstruct(c string) string {
 	// TB names the sink and, in between, where the value came from (`publish result of
 	// GetMethodT [entry] as …`, `publish parameter intT [entry] as …`): the sink is the site
 	c = publishRe.ReplaceAllString(c, "publish [entry]")
+	// … and the callee it hands the entry to, followed by where the entry came from
+	c = callOnRe.ReplaceAllString(c, "call $1 on [entry]")
 	var sb strings.Builder
 	last := 0
 	for _, m := range identRe.FindAllStringIndex(c, -1) {
@@ -71,8 +74,16 @@ func canonConstruct(c string) string {
 // `_.ToString()`, `_.field`) into the name: what was `f(id.GetName())` in the reviewed
 // function is `f(name)` in the helper the value is handed to. A chain element that is a
 // call with arguments (`_.MakeIdentifier(x)`) is kept.
+var lookupRe = regexp.MustCompile(`^lookup \S+`)
+var blankIndexRe = regexp.MustCompile(`_\[[^\]\[]*\]`)
+
 func canonLoose(c string) string {
+	// a lookup that moved behind a helper of the same function is reported under the
+	// helper's name
+	c = lookupRe.ReplaceAllString(ordinalRe.ReplaceAllString(c, ""), "lookup ANY")
 	c = canonConstruct(c)
+	// an element of a blanked list hoisted into a local (`first := xs[0]`) is a blanked name
+	c = blankIndexRe.ReplaceAllString(c, "_")
 	isIdent := func(ch byte) bool {
 		return ch == '_' || ch >= 'a' && ch <= 'z' || ch >= 'A' && ch <= 'Z' || ch >= '0' && ch <= '9'
 	}
